@@ -35,7 +35,10 @@ SAbort == More /\ E.a = "abort" /\ Abort(C1) /\ Adv /\ act' = E
 \* a property violation would end the evaluation of all the other scripts of the run)
 SPack == More /\ E.a = "pack" /\ Pack(E.sec, E.gc) /\ Adv
          /\ act' = [a |-> "pack", sec |-> E.sec, gc |-> E.gc,
-                    packok |-> (res'.out = "ok" => PackOK(hist, hist', res'.T))]
+                    packok |-> (res'.out = "ok" => PackOK(hist, hist', res'.T)),
+                    clauses |-> IF res'.out # "ok" THEN <<TRUE, TRUE, TRUE, TRUE>>
+                                ELSE <<PackSnapshotsSame(hist, hist', res'.T), PackTailSame(hist, hist', res'.T),
+                                       PackInventsNothing(hist, hist', res'.T), PackRemovesOnlyAllowed(hist, hist', res'.T)>>]
 SReopen == More /\ E.a = "reopen" /\ CloseReopen /\ Adv /\ act' = E
 SNewOid == More /\ E.a = "newoid" /\ NewOid /\ Adv /\ act' = E
 \* after a call of the transaction failed (an undo that raises, a conflict) the caller aborts: the rest of that
